@@ -632,3 +632,110 @@ def start_transfer(w: World, data: bytes | None):
     ints, req = w.make_put(data)
     ret, exc = w.src.put(ints, req)
     return ret, exc
+
+
+# ------------------------------------------------------------------ op-level replay on the implementation
+
+class Solo:
+    """A single handler rebuilt from an int-coded configuration op; int-coded ops are applied to it one by one.
+    This is what `--replay`, the corpus and the op-level oracles use."""
+
+    def __init__(self, kind, cfg_op, tag="solo"):
+        from spacepackets.cfdp import FaultHandlerCode
+        self.kind = kind
+        d = codec.dec_lcfg(cfg_op[1:])
+        self.cfgd = d
+        self.root = common.sandbox_dir(tag)
+        self.pm = codec.PathMap(str(self.root))
+        VClock.now = 0
+        self.side = Side(self, kind)
+        self.src = self.side if kind == "source" else None
+        self.dst = self.side if kind == "dest" else None
+        self.dst_vfs = RejectingFilestore()
+        ind = IndicationCfg(eof_sent_indication_required=d["ind"][0], eof_recv_indication_required=d["ind"][1],
+                            file_segment_recvd_indication_required=d["ind"][2],
+                            transaction_finished_indication_required=d["ind"][3])
+        user = RecUser(self.dst_vfs, self.side.log); user.pm = self.pm
+        fh = RecFaults(self.side.log)
+        fh._handler_dict = {ConditionCode(c): FaultHandlerCode(h) for c, h in d["faults"].items()}
+        local = LocalEntityCfg(UnsignedByteField(d["local_id"], d["local_idw"]), ind, fh)
+        remotes = []
+        for r in d["remotes"]:
+            remotes.append(RemoteEntityCfg(
+                entity_id=UnsignedByteField(r["id"], r["idw"]), max_file_segment_len=r["max_seg"], max_packet_len=r["max_packet"],
+                closure_requested=bool(r["closure"]), crc_on_transmission=bool(r["crc"]),
+                default_transmission_mode=TransmissionMode(r["mode"]), crc_type=ChecksumType(r["cktype"]),
+                positive_ack_timer_interval_seconds=r["ack_ms"] / 1000.0, positive_ack_timer_expiration_limit=r["ack_limit"],
+                check_limit=r["check_limit"], disposition_on_cancellation=bool(r["disposition"]),
+                immediate_nak_mode=bool(r["imm_nak"]), nak_timer_interval_seconds=r["nak_ms"] / 1000.0,
+                nak_timer_expiration_limit=r["nak_limit"]))
+        table = RemoteEntityCfgTable(remotes)
+        if kind == "dest":
+            self.side.h = DestHandler(local, user, table, TimerProv(d["check_ms"]))
+        else:
+            seq0, bits = d["rest"][0], d["rest"][1]
+            prov = SeqCountProvider(bits)
+            prov.count = seq0
+            self.side.h = SourceHandler(local, user, table, TimerProv(d["check_ms"]), prov)
+        self.side.ops.append(list(cfg_op))
+        self.side.obs.append([])
+
+    def close(self):
+        shutil.rmtree(self.root, ignore_errors=True)
+
+    def apply(self, op):
+        s = self.side
+        t = op[0]
+        if t == 0:
+            try:
+                pdu = codec.reparse(codec.build_pdu(op[1:], self.pm))
+            except Exception as e:  # noqa: BLE001
+                raise ValueError(f"op not realisable as a PDU: {e}")
+            s.sm(pdu)
+        elif t == 1:
+            s.sm(None)
+        elif t == 2:
+            s.get()
+        elif t == 3:
+            s.cancel(op[1], op[2])
+        elif t == 4:
+            s.reset()
+        elif t == 5:
+            VClock.now += op[1]
+            s.note_advance(op[1])
+        elif t == 6:
+            s.set_reject(bool(op[1]))
+        elif t == 7:
+            s.fs_op(op)
+        elif t == 8:
+            s.put(op[1:], self._put_from_ints(op[1:]))
+        elif t == 10:
+            comps, _ = codec.take_path(op, 1)
+            s.snapshot_file(comps)
+        else:
+            raise ValueError(op)
+        return s.obs[-1]
+
+    def _put_from_ints(self, l):
+        dst, dstw, mode, cl, has = l[:5]
+        i = 5
+        sp = dp = None
+        if has:
+            a, i = codec.take_path(l, i)
+            b, i = codec.take_path(l, i)
+            sp, dp = self.pm.to_path(a), self.pm.to_path(b)
+        hm, n = l[i], l[i + 1]
+        msgs = [codec.msg_from_code(m) for m in l[i + 2:i + 2 + n]] if hm else None
+        return PutRequest(UnsignedByteField(dst, dstw), sp, dp, None if mode < 0 else TransmissionMode(mode),
+                          None if cl < 0 else bool(cl), msgs_to_user=msgs)
+
+
+def replay_ops(kind, ops, tag="rp"):
+    """Run int-coded ops on a fresh implementation handler; returns the observations."""
+    solo = Solo(kind, ops[0], tag)
+    try:
+        for op in ops[1:]:
+            solo.apply(op)
+        return solo.side.obs, solo.side.events
+    finally:
+        solo.close()
